@@ -712,6 +712,7 @@ class Module(HasAccessibles):
                     m.pollInfo.last_main = 0
                     m.pollInfo.last_slow = 0
                 trg.set()
+                return True  # keep the callback for further reconnects
             self.registerReconnectCallback('trigger_polls', trigger_all)
 
         # collect all read functions
